@@ -611,20 +611,20 @@ class _PathParents(Sequence[Path[H]], Generic[H]):
     of a path.  Don't try to construct it yourself.
     """
 
-    __slots__ = ("_pathcls", "_host", "_parts")
+    __slots__ = ("_pathcls", "_host", "_parents")
 
     def __init__(self, path: Path[H]):
         self._pathcls = type(path)
         self._host = path.host
-        self._parts = path.parts
+        self._parents = path._path.parents
 
     def __len__(self) -> int:
-        return len(self._parts)
+        return len(self._parents)
 
-    def __getitem__(self, idx: int) -> Path[H]:  # type: ignore
-        if idx < 0 or idx >= len(self):
-            raise IndexError(idx)
-        return self._pathcls(self._host, *self._parts[: -idx - 1])
+    def __getitem__(self, idx):  # type: ignore
+        if isinstance(idx, slice):
+            return tuple(self._pathcls(self._host, p) for p in self._parents[idx])
+        return self._pathcls(self._host, self._parents[idx])
 
     def __repr__(self) -> str:
         return f"<{self._pathcls.__name__}.parents>"
